@@ -186,7 +186,7 @@ def check_C20(A, R, tier):
             if any(elem_is_key(v["elem"], w["key"]) and connected(A, w, v) for v in ins_clean):
                 cleanup2 |= set(w["to"])
     indep = {"event_now_running": ("Ready", frozenset(ready2), "states whose entry inserts the job into the ready set"),
-             "event_job_finished_success": ("Running", C["RunningQ"], "states reported by query_jobs_running"),
+             "event_job_finished_success": ("RunningAccepted", C["RunningQ"], "states reported by query_jobs_running"),
              "event_job_finished_failure": ("RunningF", C["RunningQ"], "states reported by query_jobs_running"),
              "event_job_cleanup_done": ("CleanupOffered", frozenset(cleanup2), "states whose entry inserts the job into the cleanup set")}
     reach = A.reach()
@@ -366,8 +366,8 @@ def check_C17(A, R, tier):
     R.ob("R17.5", "Failed subset of Finished", C["Failed"] <= C["Finished"], detail=str(A.snames(C["Failed"] - C["Finished"])))
     R.ob("R17.5", "UpstreamFailed subset of Finished", C["UpstreamFailed"] <= C["Finished"])
     R.ob("R17.5", "Failed and UpstreamFailed are disjoint", not (C["Failed"] & C["UpstreamFailed"]))
-    R.ob("R17.5", "query_jobs_running reports exactly the states that may be finished", C["RunningQ"] == C["Running"] == C["RunningF"],
-         detail="query: %s / success: %s / failure: %s" % (A.snames(C["RunningQ"]), A.snames(C["Running"]), A.snames(C["RunningF"])))
+    R.ob("R17.5", "query_jobs_running reports exactly the states that may be finished", C["RunningQ"] == C["RunningAccepted"] == C["RunningF"],
+         detail="query: %s / success: %s / failure: %s" % (A.snames(C["RunningQ"]), A.snames(C["RunningAccepted"]), A.snames(C["RunningF"])))
     R.ob("R17.5", "CleanupOffered subset of Finished", C["CleanupOffered"] <= C["Finished"])
     failed2 = set()
     for f, tos in sig_writes(A, fk).items():
